@@ -123,6 +123,7 @@ type Frame struct {
 	defers   []*ssa.Defer
 	retIdx   int
 	specEnvExtra map[string]Value
+	extraModel   []ModelVar
 }
 
 type retInfo struct {
@@ -187,7 +188,23 @@ func (fr *Frame) modelVars() []ModelVar {
 			out = append(out, ModelVar{Name: n, Term: t.S, Type: t.T})
 		}
 	}
+	out = append(out, fr.extraModel...)
 	return out
+}
+
+// addPointeeModel records, for a pointer parameter, the entry values of the fields of its pointee so that a
+// counterexample can be rebuilt as a Go value (one level deep).
+func (ex *Exec) addPointeeModel(fr *Frame, st *State, name string, ref string, pt types.Type) {
+	et := pt.Underlying().(*types.Pointer).Elem()
+	s, ok := et.Underlying().(*types.Struct)
+	if !ok {
+		return
+	}
+	for i := 0; i < s.NumFields(); i++ {
+		comp, ft := ex.heapCompName(et, i)
+		h := ex.heapGet(st, comp, ft)
+		fr.extraModel = append(fr.extraModel, ModelVar{Name: name + "." + s.Field(i).Name(), Term: sx("select", h, ref), Type: ft})
+	}
 }
 
 // ---- heap -------------------------------------------------------------------------
